@@ -49,6 +49,13 @@ def trusted_constraint(b, f, con):
     a, bb, c = con
     bp = buffer_param(b, f)
     cp = caret_param(b, f)
+    if cp is None and b.id == "formats::parse_with_parser":
+        # the loaders' driver loop: its local caret is only ever written by the text parsers' print_char (C09)
+        for l in range(b.argc + 1, len(b.locals)):
+            if b.lname(l) == "caret" and b.tys(l) == "caret::Caret":
+                if a[0] == "n" and a[1] is None and bb[0] == "n" and bb[1] is not None and bb[1][0] == "v" \
+                        and bb[1][1] == l and bb[1][2] in (("pos", "x"), ("pos", "y")) and a[2] - bb[2] <= c:
+                    return "T5"
     # X < len(buf.layers) with X = current_layer parameter (T1) or the constant 0 (T2)
     if bb[0] == "n" and bb[1] is not None and bb[1][0] == "len" and bp is not None and bb[1][1] == bp and bb[1][2] == ("*", "layers") and bb[2] == 0:
         if a[0] == "n" and a[1] is None and a[2] == 0 and c == -1:
@@ -74,8 +81,8 @@ def run_scope(chk, scope, roots, floor_roots, floor_bodies, floor_sinks, reviewe
     reach = g.reachable([r for r in roots if r in f.bodies])
     bodies = [bid for bid in sorted(reach) if f.bodies[bid].kind in ("fn", "method", "closure")]
     chk.floor("R-PANIC", "%s reachable bodies" % scope, len(bodies), floor_bodies)
-    for bid in bodies:
-        ip.summary(bid)
+    rounds = ip.run_scope(bodies)
+    chk.cov.setdefault("interprocedural_rounds", {})[scope] = rounds
     rootset = set(roots)
     stats = Counter()
     rules = Counter()
@@ -108,7 +115,7 @@ def run_scope(chk, scope, roots, floor_roots, floor_bodies, floor_sinks, reviewe
             chain = o.trust[2] if lifted_here else [bid]
             # trust rules apply to what remains unproven at a root
             trust = None
-            if isroot and o.lift is not None:
+            if (isroot or bid == "formats::parse_with_parser") and o.lift is not None:
                 lf = o.lift
                 cons = None
                 if lf[0] == "conj":
